@@ -1,4 +1,4 @@
-// VF-BUILD: tbb
+// VF-BUILD: tbb access
 // C11 - concurrent_vector growth: disjoint tiling ranges, elements constructed once with the right value, stable addresses,
 // grow_to_at_least waits for construction; throwing constructor / allocator leaves a destructible, safely accessible vector.
 // -p pre=N  -p prog="B|G3|L9"  ops: B push_back  E emplace_back  G<d> grow_by(d,value)  D<d> grow_by(d) (default value 0)  L<n> grow_to_at_least(n,value)
@@ -14,7 +14,8 @@ static bool in_region(const void* p) { for (auto& r : *regions) if ((const char*
 struct El { int v; int pad;
     void born() { if (g_arm && ++g_ctor == g_throwat) throw Thrown(); if (in_region(this) && ++(*live)[this] != 1) vf_fail("element at %p constructed twice", (void*)this); }
     El() : v(0), pad(0x5a5a) { born(); } El(int x) : v(x), pad(0x5a5a) { born(); } El(const El& o) : v(o.v), pad(0x5a5a) { born(); } El(El&& o) : v(o.v), pad(0x5a5a) { born(); }
-    ~El() { if (v == 0 && pad == 0) return; /* zero-filled slot of a failed growth: documented to be destroyed */ auto it = live->find(this); if (it != live->end()) { if (--it->second < 0) vf_fail("element destroyed twice"); } } };
+    ~El() { if (v == 0 && pad == 0) return; /* zero-filled slot of a failed growth: documented to be destroyed */
+        auto it = live->find(this); if (it != live->end()) { if (--it->second < 0) vf_fail("element destroyed twice"); } } };
 template <class T> struct Alloc { typedef T value_type; Alloc() {} template <class U> Alloc(const Alloc<U>&) {}
     T* allocate(size_t n) { if (g_arm && ++g_alloc == g_allocfail) throw std::bad_alloc(); char* p = (char*)malloc(n * sizeof(T) + 64); regions->push_back({p, n * sizeof(T)}); return (T*)p; }
     void deallocate(T* p, size_t) { for (auto& r : *regions) if (r.first == (char*)p) { r.second = 0; } free(p); }
@@ -36,8 +37,11 @@ static void scenario() {
                 else if (c == 'E') { auto it = v.emplace_back(tag); r.lo = it - v.begin(); r.hi = r.lo + 1; r.addr0 = &*it; }
                 else if (c == 'G') { El e(tag); auto it = v.grow_by(a, e); r.lo = it - v.begin(); r.hi = r.lo + a; r.addr0 = a ? &*it : nullptr; }
                 else if (c == 'D') { r.tag = 0; auto it = v.grow_by(a); r.lo = it - v.begin(); r.hi = r.lo + a; r.addr0 = a ? &*it : nullptr; }
-                else if (c == 'L') { El e(tag); v.grow_to_at_least(a, e); r.lo = r.hi = 0; atleast.push_back({(size_t)a, tag});
-                    size_t szn = v.size(); for (size_t i = szn; i < (size_t)a; i++) unconstructed.push_back({t, i});   // not even allocated yet (deferred, see below)
+                else if (c == 'L') { El e(tag); size_t claimed_before = v.my_size.load(std::memory_order_relaxed); v.grow_to_at_least(a, e); r.lo = r.hi = 0; atleast.push_back({(size_t)a, tag});
+                    size_t szn = v.size();
+                    /* a call that found the claimed size at n or above only waits: it must at least wait until every segment below n is allocated (the recorded finding is about construction, not allocation) */
+                    if (claimed_before >= (size_t)a && szn < (size_t)a && !g_arm) vf_fail("grow_to_at_least(%ld) found the claimed size at %zu and returned while capacity() is still %zu: it did not wait until the segments below n are allocated", a, claimed_before, v.capacity());
+                    for (size_t i = szn; i < (size_t)a; i++) unconstructed.push_back({t, i});   // fault legs only: not even allocated (deferred, see below)
                     for (long i = 0; i < (long)std::min<size_t>(a, szn); i++) { const El* e2 = &v[i]; if (!in_region(e2)) vf_fail("element %ld outside allocated memory", i); if ((*live)[e2] != 1) unconstructed.push_back({t, (size_t)i}); } }
                 else vf_fail("bad op");
             } catch (Thrown&) { r.threw = true; nthrown++; } catch (std::bad_alloc&) { r.threw = true; nthrown++; } catch (std::exception&) { r.threw = true; nthrown++; }
